@@ -674,7 +674,8 @@ Section Correct.
 
   (* ---- whole blocks: statements in order ---- *)
   Variables (is_semi : tok -> bool) (is_label_for : list tok -> bool).
-  Hypothesis H_start : forall t,
+  Variable ok_tok : tok -> bool.   (* tokens LeftBindingPower knows (it errs on nil / char / uint64 literals) *)
+  Hypothesis H_start : forall t, ok_tok t = true ->
     is_semi t || is_operand t || is_prefix t = true -> is_postfix t = false ->
     exists l, lbp t = Some l /\ l <= 0.
   Hypothesis H_semi : forall t, is_semi t = true -> is_operand t = false /\ is_prefix t = false.
@@ -778,19 +779,21 @@ Section Correct.
      juxtaposed, stray semicolons allowed) is expanded by InfixExpandArray to exactly the
      specification's statement list, in order *)
   Theorem block_is_the_oracle : forall fs ts xs,
-    spec_stmts fs ts = Some xs ->
+    spec_stmts fs ts = Some xs -> Forall (fun t => ok_tok t = true) ts ->
     forall fm, (fm > length ts)%nat -> stmts fm ts = ROk xs.
   Proof.
-    induction fs as [|fs IH]; intros ts xs H fm Hfm; [discriminate|].
+    induction fs as [|fs IH]; intros ts xs H Hok fm Hfm; [discriminate|].
     cbn [PrattSpec.spec_stmts] in H.
     destruct fm as [|fm]; [lia|].
     destruct ts as [|t r].
     - inversion H; subst. reflexivity.
     - destruct (is_semi t) eqn:Es.
-      + rewrite stmts_semi by exact Es. apply IH; auto. cbn [length] in Hfm. lia.
+      + rewrite stmts_semi by exact Es. apply IH; auto. now inversion Hok. cbn [length] in Hfm. lia.
       + destruct (take_expr (t :: r)) as [[a rest]|] eqn:Et; [|discriminate].
         destruct (take_expr_head _ _ _ Et) as (Hnp & Hnb).
         pose proof (take_expr_spec _ _ _ Et) as (Hu & Hl & Heq).
+        assert (Hokr : Forall (fun t0 => ok_tok t0 = true) rest).
+        { rewrite Heq in Hok. apply Forall_app in Hok. tauto. }
         rewrite stmts_S. cbn [Pratt.drop_semis]. rewrite Es.
         destruct (is_label_for (t :: r)) eqn:Elab.
         { apply H_label in Elab. unfold PrattSpec.take_expr in Et. rewrite Elab in Et. discriminate. }
@@ -803,7 +806,8 @@ Section Correct.
           - destruct (is_semi t' || is_operand t' || is_prefix t') eqn:Est; [|discriminate].
             destruct (spec_stmts fs (t' :: r')) as [xs'|] eqn:Ers; [|discriminate].
             inversion H; subst. split.
-            + destruct (H_start t' Est Hnp) as (l0 & Hl0 & Hle). exists l0. destruct H_max. repeat split; auto; lia.
+            + assert (Hok' : ok_tok t' = true) by (now inversion Hokr).
+              destruct (H_start t' Hok' Est Hnp) as (l0 & Hl0 & Hle). exists l0. destruct H_max. repeat split; auto; lia.
             + split; [intros _; cbn [tl]; auto|intros C; discriminate]. }
         destruct Hstop as (Hstop & Hne & Hnil).
         rewrite Heq at 2.
@@ -819,7 +823,7 @@ Section Correct.
         * rewrite (Hnil eq_refl). destruct fm as [|fm]; [cbn [length] in Hfm; lia|]. reflexivity.
         * destruct (Hne ltac:(discriminate)) as (Hs' & Hxs). rewrite Hxs.
           assert (Hrec : stmts fm (t' :: r') = ROk (tl xs)).
-          { apply (IH _ _ Hs'). rewrite Hlen in Hfm. cbn [length] in *.
+          { apply (IH _ _ Hs' Hokr). rewrite Hlen in Hfm. cbn [length] in *.
             assert (length (alt_tokens tok a) >= 1)%nat.
             { unfold alt_tokens, PrattSpec.unit_tokens. rewrite !app_length. cbn [length]. lia. }
             lia. }
